@@ -159,7 +159,7 @@ from cylc.flow.task_state import (
 )
 from cylc.flow.taskdef import TaskDef
 from cylc.flow.templatevars import (
-    eval_var,
+    eval_stored_var,
     get_template_vars,
 )
 from cylc.flow.timer import Timer
@@ -1300,7 +1300,7 @@ class Scheduler:
         key, value = row
         # Command line argument takes precedence
         if key not in self.template_vars:
-            self.template_vars[key] = eval_var(value)
+            self.template_vars[key] = eval_stored_var(value)
 
     def run_event_handlers(self, event, reason=""):
         """Run a workflow event handler.
